@@ -13,8 +13,8 @@
      - the hand model of HessianUpdater.__init__ / updated_h / updated_h_inv (control flow only;
        hessian_update.py:29-36, 83-127; its text is pinned by the translator) and of
        OptCoordinates.update_h_from_old_h's "first applicable updater" loop (base.py:233-251). *)
-From Coq Require Import ZArith List Bool Arith.
-From AV.lib Require Import Sums.
+From Coq Require Import ZArith QArith Qcanon List Bool Arith.
+From AV.lib Require Import Sums QcInst.
 Import ListNotations.
 
 Record fenv : Type := mkFenv {
@@ -132,3 +132,9 @@ Fixpoint first_applicable_from {M : Type} (k : nat) (l : list (bool * M)) : upd_
   | (c, m) :: r => if c then Chosen k m else first_applicable_from (S k) r
   end.
 Definition first_applicable {M : Type} (l : list (bool * M)) : upd_choice M := first_applicable_from 0 l.
+
+(* ---- the environment at canonical rationals (exact arithmetic; sqrt / inv / eigenvalue test stay
+   parameters: Corr.v supplies executable ones for the correspondence check) ---- *)
+Definition QcEnv (sq : Qc -> Qc) (minv : nat -> (nat -> nat -> Qc) -> nat -> nat -> Qc)
+                 (eig : nat -> (nat -> nat -> Qc) -> Qc -> bool) : fenv :=
+  mkFenv Qc (Q2Qc 0) (Q2Qc 1) Qcplus Qcmult Qcminus Qcopp Qcdiv Qcinv Qcltb sq Qcabs minv eig.
